@@ -64,14 +64,26 @@ def to_tuple(x):
     return x
 
 
-def nk_from_json(j):
+def nk_from_json(j, real_names=False):
     from .neutral import NK
     n = len(j['states'])
     succ = [0] * n
     for a, b in j['R']:
         succ[a] |= 1 << b
-    labels = [frozenset(j['L'].get(str(i), ())) for i in range(n)]
-    return NK(range(n), succ, labels)
+    labels = []
+    lr = j.get('L_repr', {})
+    for i in range(n):
+        if str(i) in lr:
+            labels.append(frozenset(eval(x) for x in lr[str(i)]))
+        else:
+            labels.append(frozenset(j['L'].get(str(i), ())))
+    names = range(n)
+    if real_names:
+        try:
+            names = [eval(x) for x in j['states']]
+        except Exception:
+            names = range(n)
+    return NK(names, succ, labels)
 
 
 def replay_mc(case):
